@@ -878,7 +878,14 @@ func genMailbox(rng *rand.Rand) (string, string) {
 	case 4:
 		return "with space \"quoted\" \\bs", "specials"
 	case 5:
-		return "INBOX/sub" + fmt.Sprint(rng.Intn(10)), "inbox-prefix"
+		// only the name INBOX itself is case-insensitive: names that merely start with it are ordinary names
+		pre := []byte("inbox")
+		for i := range pre {
+			if rng.Intn(2) == 0 {
+				pre[i] -= 32
+			}
+		}
+		return string(pre) + []string{"/sub", "es", "-2023", "2/Lists", ".old", " ", "x", "/"}[rng.Intn(8)] + fmt.Sprint(rng.Intn(10)), "inbox-prefix"
 	case 6:
 		return strings.Repeat("é", 2100), "long-unicode" // UTF-7 form longer than 4096 bytes
 	}
